@@ -164,6 +164,7 @@ func (v *scanner_) emitToken(type_ TokenType) {
 
 func (v *scanner_) foundEOF() {
 	v.emitToken(EOFToken)
+	v.tokens_.CloseQueue() // No more tokens will be placed on the queue.
 }
 
 func (v *scanner_) foundError() {
